@@ -35,6 +35,7 @@ package main
 // followed (or preceded) by the same request served faultlessly; B — one handle object (every kind x method x
 // outcome x error value x fault at the 1st / 2nd call x Close nil / err x end), and every handler-method error;
 // C — PRNG sessions with several handles open at once, every object with its own PRNG schedule.
+// E / O — the ways a session ends x handle populations, request server / os-backed server (c11_ends.go).
 //
 // Every case runs on a fresh RequestServer over in-memory pipes inside a child process (`vh child c11of`,
 // a batch per child, one result line per case, so that a panic of the package costs one case); the handler is
@@ -78,10 +79,11 @@ const ofClass = "c11/objfault"
 // ---------- case description (replayable) ----------
 
 type ofCfg struct {
-	Lstat    bool `json:"lstat"`    // FileList implements LstatFileLister
-	Readlink bool `json:"readlink"` // FileList implements ReadlinkFileLister
-	OpenFile bool `json:"openfile"` // FilePut implements OpenFileWriter
-	Alloc    bool `json:"alloc"`    // WithRSAllocator()
+	Lstat    bool `json:"lstat"`        // FileList implements LstatFileLister
+	Readlink bool `json:"readlink"`     // FileList implements ReadlinkFileLister
+	OpenFile bool `json:"openfile"`     // FilePut implements OpenFileWriter
+	Alloc    bool `json:"alloc"`        // WithRSAllocator()
+	OS       bool `json:"os,omitempty"` // family O (c11_ends.go): the os-backed Server on a scratch tree instead of the request server (Alloc: WithAllocator())
 }
 
 func (c ofCfg) String() string {
@@ -90,6 +92,9 @@ func (c ofCfg) String() string {
 			return '1'
 		}
 		return '0'
+	}
+	if c.OS {
+		return "os-backed,alloc=" + string(b(c.Alloc))
 	}
 	return "lstat=" + string(b(c.Lstat)) + ",readlink=" + string(b(c.Readlink)) + ",openfile=" + string(b(c.OpenFile)) + ",alloc=" + string(b(c.Alloc))
 }
@@ -130,7 +135,12 @@ type ofCase struct {
 	Family string   `json:"family"`
 	Cfg    ofCfg    `json:"cfg"`
 	Steps  []ofStep `json:"steps"`
-	End    string   `json:"end"` // close-eof | close2-eof | eof | break | noreply
+	End    string   `json:"end"` // close-eof | close2-eof | eof | break | noreply | the ends of c11_ends.go (ofEndKinds)
+	// parameters of the session ends of c11_ends.go
+	EndErr string `json:"end_err,omitempty"` // transport error value (name in ofTrErrs): break-err, break-mid, write-fail*
+	EndOff int    `json:"end_off,omitempty"` // eof-mid / break-mid: bytes of the following frame sent (<= 0: all but the last); srv-close-inflight: 1 = Close() once the server has read the requests
+	EndN   int    `json:"end_n,omitempty"`   // srv-close-inflight / srv-close-held / write-fail*: number of requests sent and not answered before the end
+	EndBad string `json:"end_bad,omitempty"` // badpkt: which malformed packet (ofBadKinds)
 }
 
 // class: the hang-budget class of the case (a request kind that hangs stops the cases of its own shape only).
@@ -146,6 +156,8 @@ func (cs ofCase) class() string {
 		if len(cs.Steps) > 1 {
 			return ofClass + "/B/" + cs.Steps[0].Op + cs.Steps[0].Mode + "-" + cs.Steps[1].Op
 		}
+	case "E", "O":
+		return ofClass + "/" + cs.Family + "/" + cs.End
 	}
 	return ofClass + "/" + cs.Family
 }
@@ -214,6 +226,8 @@ type ofObj struct {
 	Faults   []string `json:"faults_delivered"`
 	CloseErr bool     `json:"close_failed"`
 	TEAfter  bool     `json:"transfer_error_after_close"`
+	TEErrs   []string `json:"transfer_error_values,omitempty"` // the error each TransferError call carried ("<nil>" for nil)
+	TENil    bool     `json:"transfer_error_nil,omitempty"`
 	UseAfter string   `json:"used_after_close,omitempty"`
 
 	spec ofObjSpec
@@ -234,12 +248,30 @@ type ofFS struct {
 	objs  []*ofObj
 	opens []*ofOpenCall
 	tie   []string
+
+	// end "srv-close-held": while hold is set, ListAt / ReadAt / WriteAt report their entry and wait for release
+	hold    atomic.Bool
+	entered chan struct{}
+	release chan struct{}
+	relOnce sync.Once
 }
+
+func (f *ofFS) holdPoint() {
+	if f.hold.Load() {
+		select {
+		case f.entered <- struct{}{}:
+		default:
+		}
+		<-f.release
+	}
+}
+
+func (f *ofFS) releaseHeld() { f.relOnce.Do(func() { f.hold.Store(false); close(f.release) }) }
 
 func (f *ofFS) step() (int, ofStep) {
 	i := int(f.cur.Load())
 	if i < 0 || i >= len(f.cs.Steps) {
-		return i, ofStep{}
+		return i, ofStep{Op: "end-request"} // a request of the session END (c11_ends.go): not a step of the case
 	}
 	return i, f.cs.Steps[i]
 }
@@ -320,6 +352,7 @@ func (o *ofObj) called(method string, out ofOut) {
 }
 
 func (o *ofObj) listAt(ls []os.FileInfo, off int64) (int, error) {
+	o.fs.holdPoint()
 	o.fs.mu.Lock()
 	defer o.fs.mu.Unlock()
 	out := ofPlan(o.spec.List, o.NList)
@@ -364,6 +397,7 @@ var ofData = func() []byte {
 }()
 
 func (o *ofObj) readAt(p []byte, off int64) (int, error) {
+	o.fs.holdPoint()
 	o.fs.mu.Lock()
 	defer o.fs.mu.Unlock()
 	out := ofPlan(o.spec.Read, o.NRead)
@@ -399,6 +433,7 @@ func (o *ofObj) readAt(p []byte, off int64) (int, error) {
 }
 
 func (o *ofObj) writeAt(p []byte, off int64) (int, error) {
+	o.fs.holdPoint()
 	o.fs.mu.Lock()
 	defer o.fs.mu.Unlock()
 	out := ofPlan(o.spec.Write, o.NWrite)
@@ -427,10 +462,16 @@ func (o *ofObj) close() error {
 	return err
 }
 
-func (o *ofObj) transferError(error) {
+func (o *ofObj) transferError(err error) {
 	o.fs.mu.Lock()
 	defer o.fs.mu.Unlock()
 	o.TE++
+	if err == nil {
+		o.TENil = true
+		o.TEErrs = append(o.TEErrs, "<nil>")
+	} else {
+		o.TEErrs = append(o.TEErrs, err.Error())
+	}
 	if o.Closed > 0 {
 		o.TEAfter = true
 	}
@@ -706,8 +747,17 @@ func (o *ofObj) faultTag() string {
 
 func ofRun(cs ofCase) (res ofResult) {
 	k := lib.NewCase(cs.class())
-	add := func(f ofFinding) { res.Findings = append(res.Findings, f) }
-	fs := &ofFS{cs: &cs}
+	add := func(f ofFinding) {
+		if (cs.Family == "E" || cs.Family == "O") && strings.HasPrefix(f.Key, "rs/objfault/") {
+			f.Key += "/end=" + cs.End // the way the session ended is the dimension of this family: part of the signature
+		}
+		res.Findings = append(res.Findings, f)
+	}
+	if cs.Cfg.OS {
+		return ofRunOS(cs) // the os-backed server and the ways its session ends (c11_ends.go)
+	}
+	fs := &ofFS{cs: &cs, entered: make(chan struct{}, 64), release: make(chan struct{})}
+	defer fs.releaseHeld()
 	fs.cur.Store(-1)
 	h, tie := ofHandlers(fs, cs.Cfg)
 	if tie != "" {
@@ -722,10 +772,12 @@ func ofRun(cs ofCase) (res ofResult) {
 	}
 	rs := sftp.NewRequestServer(ofConn{Reader: c2sR, Writer: s2cW, close: func() { c2sR.Close(); s2cW.Close() }}, h, opts...)
 	done := make(chan error, 1)
+	stopped := make(chan struct{})
 	go func() {
 		err := rs.Serve()
 		s2cW.Close()
 		c2sR.Close()
+		close(stopped)
 		done <- err
 	}()
 	frames := make(chan wire.Pkt, 256)
@@ -898,6 +950,7 @@ func ofRun(cs ofCase) (res ofResult) {
 			handles[i] = d.Str()
 		}
 	}
+	var afterServe func()
 	if dead {
 		abort()
 	} else {
@@ -929,15 +982,29 @@ func ofRun(cs ofCase) (res ofResult) {
 			e := errors.New("connection reset by peer")
 			c2sW.CloseWithError(e)
 			s2cR.CloseWithError(e)
-		default: // eof, noreply
+		case "eof", "noreply":
 			c2sW.Close()
+		default: // the ways a session ends of c11_ends.go
+			env := &ofEndEnv{cs: &cs, k: k, fs: fs, closeApp: rs.Close, c2sW: c2sW, s2cR: s2cR, send: send, recv: recv, stopped: stopped,
+				handles: handles, closeSent: closeSent, hist: &res.Hist, add: add, kind: "rs"}
+			if !ofEndDrive(env) {
+				add(ofFinding{Key: "tie/objfault/generator", What: "unknown session end " + cs.End})
+				c2sW.Close()
+			}
+			afterServe = env.after
 		}
 		if dead {
 			abort()
-		} else if _, ok := lib.WaitCase(k, hangDeadline, done); !ok {
-			add(ofFinding{Key: "rs/objfault/serve-hang", What: fmt.Sprintf("Serve did not return within %v after the connection ended (%s)", hangDeadline, cs.End), Actual: strings.Join(ssPkgGoroutines(), "\n\n")})
+		} else if serr, ok := lib.WaitCase(k, hangDeadline, done); !ok {
+			fs.releaseHeld()
+			add(ofFinding{Key: "rs/objfault/serve-hang", What: fmt.Sprintf("Serve did not return within %v after the session ended (%s)", hangDeadline, ofEndText(&cs)), Actual: strings.Join(ssPkgGoroutines(), "\n\n")})
 			res.Hung = true
 			return
+		} else {
+			res.Hist = append(res.Hist, "objfault/serve-returned/"+cs.End+"/"+ofErrClass(serr))
+			if afterServe != nil {
+				afterServe()
+			}
 		}
 	}
 	if res.Hung {
@@ -971,7 +1038,7 @@ func ofRun(cs ofCase) (res ofResult) {
 		if o.Closed != want {
 			add(ofFinding{Key: fmt.Sprintf("rs/objfault/closed-%d-times/%s/%s", min(o.Closed, 2), o.Via, tag),
 				What: fmt.Sprintf("the %s the handler handed out for step %d (%s %s; its methods delivered %v) was closed %d times by the time Serve returned (session end: %s)",
-					o.Kind, o.Step, cs.Steps[o.Step].Op, o.Path, o.Faults, o.Closed, cs.End),
+					o.Kind, o.Step, ofStepOp(&cs, o.Step), o.Path, o.Faults, o.Closed, ofEndText(&cs)),
 				Expected: fmt.Sprintf("closed == %d", want), Actual: snap})
 		}
 		if o.UseAfter != "" {
@@ -1000,9 +1067,20 @@ func ofRun(cs ofCase) (res ofResult) {
 		if !o.HasTE {
 			wantTE = 0
 		}
+		for _, v := range o.TEErrs {
+			res.Hist = append(res.Hist, "objfault/transfer-error-value/"+cs.End+"/"+ofErrTextClass(v))
+		}
+		if o.TENil {
+			add(ofFinding{Key: "rs/objfault/transfer-error-nil/" + o.Via,
+				What:     fmt.Sprintf("the %s of step %d was told TransferError(nil): the notification carries no error (session end: %s)", o.Kind, o.Step, ofEndText(&cs)),
+				Expected: "a non-nil error", Actual: snap})
+		}
+		if wantTE == 1 && certain {
+			res.Hist = append(res.Hist, fmt.Sprintf("objfault/open-at-end/%s/%s", cs.End, o.Kind))
+		}
 		if certain && o.TE != wantTE {
 			add(ofFinding{Key: fmt.Sprintf("rs/objfault/transfer-error-count/%s/%s", o.Via, tag),
-				What:     fmt.Sprintf("the %s of step %d (handle open at the end of the session: %v) received TransferError %d times", o.Kind, o.Step, wantTE == 1 || (!o.HasTE && !closeSent[o.Step]), o.TE),
+				What:     fmt.Sprintf("the %s of step %d (handle open at the end of the session: %v) received TransferError %d times (session end: %s)", o.Kind, o.Step, wantTE == 1 || (!o.HasTE && !closeSent[o.Step]), o.TE, ofEndText(&cs)),
 				Expected: fmt.Sprint(wantTE), Actual: snap})
 		}
 	}
@@ -1364,7 +1442,7 @@ func ofGenC(rng *rand.Rand) ofCase {
 
 // ---------- the part of the check ----------
 
-const ofRule = " PART objfault (c11_objfault.go): request server with a counting, FAULT-INJECTING in-memory handler — every object a handler hands out (listers for STAT / LSTAT with and without LstatFileLister / READLINK without ReadlinkFileLister / FSTAT on reader, writer, read-write and directory handles; directory listers; readers; writers; OpenFile objects) carries a schedule of method outcomes: ListAt {ok, (0,err), (n>0,err), (0,EOF), (n>0,EOF), (0,nil)}, ReadAt {ok, (0,err), (n>0,err), (0,EOF), (n>0,EOF)}, WriteAt {ok, (0,err), (n>0,err)}, Close {nil, err}, err from 13 values (os / syscall / io / package errors, wrapped io.EOF, PathError), and the handler methods (Filelist, Lstat, Fileread, Filewrite, OpenFile, Readlink, Filecmd) fail with each of them and io.EOF; objects with / without io.Closer and TransferError, server with / without allocator; families A (one attribute request x every ListAt outcome x every error value x Close nil / err / err twice, next to the same request without a fault), B (one handle object x method x outcome x error value x fault at the 1st / 2nd call x Close nil / err; thorough: x 5 session ends, quick: ends rotating) and C (PRNG sessions of 6-24 requests, up to 6 handles open at once, every planned call faulty with 40 %); session ends: CLOSE of every handle + EOF, CLOSE twice + EOF, EOF / transport error with the handles open, EOF after the last request without reading its reply. Oracle after Serve returned: every closeable object closed exactly once whatever its methods returned, closed at the reply to its CLOSE, TransferError exactly once on readers / writers whose handle was still open and never after Close, no method call after Close, every context handed to an open / opendir handler (also a failing one) cancelled at the CLOSE reply resp. at the end. Non-trivial: the handler handed out at least one object"
+const ofRule = " PART objfault (c11_objfault.go): request server with a counting, FAULT-INJECTING in-memory handler — every object a handler hands out (listers for STAT / LSTAT with and without LstatFileLister / READLINK without ReadlinkFileLister / FSTAT on reader, writer, read-write and directory handles; directory listers; readers; writers; OpenFile objects) carries a schedule of method outcomes: ListAt {ok, (0,err), (n>0,err), (0,EOF), (n>0,EOF), (0,nil)}, ReadAt {ok, (0,err), (n>0,err), (0,EOF), (n>0,EOF)}, WriteAt {ok, (0,err), (n>0,err)}, Close {nil, err}, err from 13 values (os / syscall / io / package errors, wrapped io.EOF, PathError), and the handler methods (Filelist, Lstat, Fileread, Filewrite, OpenFile, Readlink, Filecmd) fail with each of them and io.EOF; objects with / without io.Closer and TransferError, server with / without allocator; families A (one attribute request x every ListAt outcome x every error value x Close nil / err / err twice, next to the same request without a fault), B (one handle object x method x outcome x error value x fault at the 1st / 2nd call x Close nil / err; thorough: x 5 session ends, quick: ends rotating) and C (PRNG sessions of 6-24 requests, up to 6 handles open at once, every planned call faulty with 40 %); session ends: CLOSE of every handle + EOF, CLOSE twice + EOF, EOF / transport error with the handles open, EOF after the last request without reading its reply. Oracle after Serve returned: every closeable object closed exactly once whatever its methods returned, closed at the reply to its CLOSE, TransferError exactly once on readers / writers whose handle was still open and never after Close, no method call after Close, every context handed to an open / opendir handler (also a failing one) cancelled at the CLOSE reply resp. at the end. Non-trivial: the handler handed out at least one object" + ofEndsRule
 
 // checkC11ObjFault runs the part (only != nil: exactly that case, for --replay).
 func checkC11ObjFault(c *lib.Ctx, only *ofCase) {
@@ -1383,6 +1461,9 @@ func checkC11ObjFault(c *lib.Ctx, only *ofCase) {
 		for i := 0; i < nC; i++ {
 			cases = append(cases, ofGenC(c.Rand))
 		}
+		// families E / O (c11_ends.go): every handle population x every way the session ends, request server / os-backed server
+		cases = append(cases, ofGenE(thorough, c.Rand, false)...)
+		cases = append(cases, ofGenE(thorough, c.Rand, true)...)
 	}
 	t0 := time.Now()
 	workers := min(runtime.NumCPU(), 8)
@@ -1412,6 +1493,9 @@ func checkC11ObjFault(c *lib.Ctx, only *ofCase) {
 		r.Case("objfault "+string(b), res.Objects > 0)
 		r.Hist("objfault/family/" + cs.Family)
 		r.Hist("objfault/end/" + cs.End)
+		if cs.Family == "E" || cs.Family == "O" {
+			r.Hist("objfault/ends/" + cs.Family + "/" + ofEndText(&cs))
+		}
 		r.Hist("objfault/cfg/" + cs.Cfg.String())
 		for _, h := range res.Hist {
 			r.Hist(h)
